@@ -191,6 +191,21 @@ pub fn attacks(
     out.push(base("kb sd_hash", "sd_hash absent".into(), with_kb(edit(&|p| { p.shift_remove("sd_hash"); }))));
     out.push(base("kb sd_hash", "sd_hash random".into(), with_kb(edit(&|p| { p.insert("sd_hash".into(), json!("jsu9yVulwQQlhFlM_3JlzMaSFzglhQG0DpfayQwLUK4")); }))));
     out.push(base("kb sd_hash", "sd_hash null".into(), with_kb(edit(&|p| { p.insert("sd_hash".into(), Value::Null); }))));
+    {
+        // not the digest, but related to it as strings: empty, a prefix, the digest plus a character
+        let real = sd_hash_of(&parts.jwt, &parts.disclosures);
+        out.push(base("kb sd_hash", "sd_hash empty string".into(), with_kb(edit(&|p| { p.insert("sd_hash".into(), json!("")); }))));
+        let prefix: String = real.chars().take(10).collect();
+        out.push(base("kb sd_hash", "sd_hash a prefix of the digest".into(), with_kb(edit(&|p| { p.insert("sd_hash".into(), json!(prefix.clone())); }))));
+        let longer = format!("{}A", real);
+        out.push(base("kb sd_hash", "sd_hash the digest plus one character".into(), with_kb(edit(&|p| { p.insert("sd_hash".into(), json!(longer.clone())); }))));
+        if !nonce.is_empty() {
+            out.push(base("kb nonce", "nonce empty string".into(), with_kb(edit(&|p| { p.insert("nonce".into(), json!("")); }))));
+        }
+        if !aud.is_empty() {
+            out.push(base("kb aud", "aud empty string".into(), with_kb(edit(&|p| { p.insert("aud".into(), json!("")); }))));
+        }
+    }
     let jwt_only = sd_hash_of(&parts.jwt, &[]);
     if !parts.disclosures.is_empty() {
         out.push(base("kb sd_hash", "sd_hash over the JWT alone".into(), with_kb(edit(&|p| { p.insert("sd_hash".into(), json!(jwt_only.clone())); }))));
